@@ -210,3 +210,84 @@ func ObserveTree(t *tree.Tree) (*Sexp, *Sexp) {
 	}
 	return d, Strs(problems)
 }
+
+// BuildTreeAPI assembles the same structure through the public API only, as a caller that starts
+// from an undirected branch list would: NewNode, ConnectNodes (in the direction given by flip:
+// bit i true = branch i, numbered in preorder, is connected child->parent, i.e. pointing towards
+// the root), SetRoot.  Nothing is oriented or indexed afterwards: the caller is expected to run
+// Reroot(root) (the library's way to orient a hand-made tree) before using it.  Branches are
+// connected in preorder, so every node's neighbour list is [parent, children in order]: the
+// structure must have the parent slot first in every non-root node.
+func BuildTreeAPI(s *Sexp, flip []bool) (*tree.Tree, error) {
+	t := tree.NewTree()
+	k := 0
+	var mk func(s *Sexp) (*tree.Node, error)
+	var attach func(n *tree.Node, s *Sexp) error
+	mk = func(s *Sexp) (*tree.Node, error) {
+		if s == nil || !s.IsList || len(s.List) != 4 || s.List[0].Atom != "N" {
+			return nil, fmt.Errorf("bad node")
+		}
+		n := t.NewNode()
+		n.SetName(s.List[1].Atom)
+		for _, c := range s.List[2].List {
+			n.AddComment(c.Atom)
+		}
+		return n, nil
+	}
+	attach = func(n *tree.Node, s *Sexp) error {
+		for i, sl := range s.List[3].List {
+			if !sl.IsList {
+				if sl.Atom != "U" || i != 0 {
+					return fmt.Errorf("BuildTreeAPI needs the parent slot first")
+				}
+				continue
+			}
+			if len(sl.List) != 6 || sl.List[0].Atom != "D" {
+				return fmt.Errorf("bad child slot")
+			}
+			child, err := mk(sl.List[5])
+			if err != nil {
+				return err
+			}
+			var e *tree.Edge
+			if k < len(flip) && flip[k] {
+				e = t.ConnectNodes(child, n)
+				// ConnectNodes(child, n) appends in the same order to both lists: n gets child, child gets n
+			} else {
+				e = t.ConnectNodes(n, child)
+			}
+			k++
+			l, err := ParseQ(sl.List[1].Atom)
+			if err != nil {
+				return err
+			}
+			su, err := ParseQ(sl.List[2].Atom)
+			if err != nil {
+				return err
+			}
+			pv, err := ParseQ(sl.List[3].Atom)
+			if err != nil {
+				return err
+			}
+			e.SetLength(l)
+			e.SetSupport(su)
+			e.SetPValue(pv)
+			for _, c := range sl.List[4].List {
+				e.AddComment(c.Atom)
+			}
+			if err := attach(child, sl.List[5]); err != nil {
+				return err
+			}
+		}
+		return nil
+	}
+	root, err := mk(s)
+	if err != nil {
+		return nil, err
+	}
+	if err := attach(root, s); err != nil {
+		return nil, err
+	}
+	t.SetRoot(root)
+	return t, nil
+}
